@@ -97,6 +97,11 @@ def parseStmt (toks : List String) : Option (Stmt × List String) :=
     let id ← x.toNat?
     let (e, rest) ← parseExpr fuel rest
     pure (.shortDecl id e, rest)
+  | "short2" :: x :: y :: rest => do
+    let id ← x.toNat?; let id2 ← y.toNat?
+    let (e1, rest) ← parseExpr fuel rest
+    let (e2, rest) ← parseExpr fuel rest
+    pure (.shortDecl2 id id2 e1 e2, rest)
   | "const" :: x :: t :: rest => do
     let id ← x.toNat?; let ty ← parseBType t
     let (e, rest) ← parseExpr fuel rest
